@@ -103,6 +103,17 @@ func (m FileMatcher) Match(file *ast.File, d data.Data) (data.Data, bool) {
 		switch n.(type) {
 		case *ast.Comment, *ast.CommentGroup:
 			return false
+		case *ast.ImportSpec:
+			// The name and the path of an import are not code. A
+			// patch addresses them with import lines of its own;
+			// its code must not rewrite the path "errors" because
+			// it rewrites the string "errors", or an import name
+			// because it renames an identifier.
+			return false
+		}
+		if cursor.Parent() == ast.Node(file) && cursor.Name() == "Name" {
+			// Likewise for the name in the package clause.
+			return false
 		}
 
 		d, ok := m.NodeMatcher.Match(reflect.ValueOf(n), d, nodeRegion(n))
